@@ -53,6 +53,10 @@ class Hang(BaseException):
     """Raised by the SIGALRM backstop / step bounds inside library code."""
 
 
+class _AbortShrink(BaseException):
+    """Raised inside a Hypothesis test once the shrink budget is spent (not caught by Hypothesis)."""
+
+
 class Info:
     """What one executed case was. For block cases (a slice of an exhaustive enumeration run in one
     call) n_eval / n_nontrivial count the points inside the block; points of different blocks
@@ -308,12 +312,10 @@ class Ctx:
         def test(case):
             if state["best"] is not None:
                 state["calls_after_fail"] += 1
-                # (the wall-clock bound only limits how far a failure is minimised, never the verdict)
+                # shrink budget (calls or wall clock; the clock only limits how far a failure is minimised,
+                # never the verdict): stop Hypothesis altogether and report the best failing case so far
                 if state["calls_after_fail"] > limit or time.time() - state["t_fail"] > self.SHRINK_SECONDS:
-                    # shrink budget used up: only the best known failing case still fails
-                    if canon(case) == canon(state["best"][0]):
-                        raise state["best"][1]
-                    return
+                    raise _AbortShrink()
             try:
                 ctx.execute(sub, fn, case, timeout=timeout, count=state["best"] is None)
             except Failure as f:
@@ -327,7 +329,7 @@ class Ctx:
 
         try:
             test()
-        except Failure as f:
+        except (Failure, _AbortShrink):
             case, f2 = state["best"]
             self.add_violation(sub, case, f2)
         except hypothesis.errors.FailedHealthCheck as e:
